@@ -14,8 +14,9 @@ PROPERTY = 'C13'
 TITLE = 'Depth normalisation reorients coordinates and data together, idempotently'
 RULE = (
     "One case per depth-coordinate configuration: positive {up, down, attribute absent with unambiguous "
-    "values} x stored order {deep-to-shallow, shallow-to-deep} x {with, without bounds} x {dimension "
-    "coordinate, separately named coordinate} x 2..4 levels x {one, two depth coordinates} x {function, "
+    "values} x value offsets {0, +-10, +-1: heights above the sea bed, datum above the surface / inside the "
+    "water column, so that the sign of the values is not what the attribute suggests} x stored order {deep-to-shallow, shallow-to-deep} x {with, without bounds} x {dimension "
+    "coordinate, separately named coordinate} x 2..4 levels x {one, two depth coordinates on different dimensions, two coordinates sharing one dimension} x {function, "
     "accessor on CF1D / SHOC standard datasets}.  Inside: all 9 combinations of positive_down and "
     "deep_to_shallow in {None, True, False}, then every second application (9 x 9 histories of length 2).  "
     "Every data value carries the physical layer it belongs to.  Oracle: attribute and sign agree with the "
@@ -47,33 +48,49 @@ def cases(tier):
         if levels == 3:
             out.append({'kind': 'function', 'positive': positive, 'deep_first': deep_first, 'bounds': with_bounds,
                         'separate': separate, 'levels': levels, 'second': True})
+        if positive is not None and levels == 3 and separate:
+            out.append({'kind': 'function', 'positive': positive, 'deep_first': deep_first, 'bounds': with_bounds,
+                        'separate': separate, 'levels': levels, 'second': 'shared'})
+        if positive is not None and levels in (2, 3):
+            # values whose sign is not what the attribute suggests: a height above the sea bed (+10),
+            # depths below a datum above the surface (-10), a datum inside the water column (-/+1)
+            for offset in ((10.0, -10.0, 1.0, -1.0) if tier == 'thorough' or separate == with_bounds else (10.0, -1.0)):
+                out.append({'kind': 'function', 'positive': positive, 'deep_first': deep_first, 'bounds': with_bounds,
+                            'separate': separate, 'levels': levels, 'second': False, 'offset': offset})
     for spec in ({'family': 'cf1d', 'ny': 2, 'nx': 2}, {'family': 'shoc_standard', 'nj': 2, 'ni': 2},
                  {'family': 'ugrid', 'mesh': 'M1'}, {'family': 'shoc_simple', 'ny': 2, 'nx': 2}):
         out.append({'kind': 'accessor', 'spec': spec})
     return out
 
 
-def make_coordinate(name, dim, levels, positive, deep_first, with_bounds):
-    """Returns (coordinate, bounds or None, physical layer index of each stored position)."""
+def layer_value(p, sign, offset):
+    return sign * (p + 0.5) + offset
+
+
+def make_coordinate(name, dim, levels, positive, deep_first, with_bounds, offset=0.0):
+    """Returns (coordinate, bounds or None, physical layer index of each stored position).
+    Layer p (0 = shallowest) sits at sign * (p + 0.5) + offset: with an offset the values need not have
+    the sign the attribute suggests (a height above the sea bed, a datum inside the water column)."""
     physical = list(range(levels))                    # 0 = shallowest
     if deep_first:
         physical = physical[::-1]
     sign = -1.0 if positive == 'up' else 1.0          # attribute absent: positive values, i.e. 'down'
-    values = np.array([sign * (p + 0.5) for p in physical])
+    values = np.array([layer_value(p, sign, offset) for p in physical])
     attrs = {'long_name': 'depth', 'standard_name': 'depth'}
     if positive is not None:
         attrs['positive'] = positive
     bounds_var = None
     if with_bounds:
         attrs['bounds'] = f'{name}_bnds'
-        bounds_var = xr.DataArray(np.array([[sign * p, sign * (p + 1)] for p in physical]), dims=[dim, 'nv'])
+        bounds_var = xr.DataArray(np.array([[sign * p + offset, sign * (p + 1) + offset] for p in physical]), dims=[dim, 'nv'])
     return xr.DataArray(values, dims=[dim], name=name, attrs=attrs), bounds_var, physical
 
 
 def make_dataset(case):
     levels = case['levels']
     name, dim = ('zc', 'k') if case['separate'] else ('depth', 'depth')
-    coord, bnds, physical = make_coordinate(name, dim, levels, case['positive'], case['deep_first'], case['bounds'])
+    offset = case.get('offset', 0.0)
+    coord, bnds, physical = make_coordinate(name, dim, levels, case['positive'], case['deep_first'], case['bounds'], offset)
     data = np.array([[[1000 * t + 100 * p + x for x in range(2)] for p in physical] for t in range(2)], dtype='float64')
     variables = {
         'temp': xr.DataArray(data, dims=['time', dim, 'x'], attrs={'units': 'C'}),
@@ -84,60 +101,71 @@ def make_dataset(case):
     if bnds is not None:
         variables[f'{name}_bnds'] = bnds
     info = {name: {'dim': dim, 'levels': levels, 'positive': case['positive'], 'bounds': f'{name}_bnds' if bnds is not None else None,
-                   'data': [('temp', 1), ('flip', 2)]}}
-    if case['second']:
+                   'data': [('temp', 1), ('flip', 2)], 'sign': -1.0 if case['positive'] == 'up' else 1.0, 'offset': offset}}
+    if case['second'] == 'shared':
+        # a second depth coordinate on the *same* dimension with the opposite sign convention
+        other = 'up' if case['positive'] != 'up' else 'down'
+        coord2, _, _ = make_coordinate('depth_alt', dim, levels, other, case['deep_first'], False)
+        variables['depth_alt'] = coord2
+        info['depth_alt'] = {'dim': dim, 'levels': levels, 'positive': other, 'bounds': None, 'data': [('temp', 1), ('flip', 2)],
+                             'sign': -1.0 if other == 'up' else 1.0, 'offset': 0.0}
+    elif case['second']:
         coord2, bnds2, physical2 = make_coordinate('zgrid', 'kg', levels + 1, 'up' if case['positive'] != 'up' else 'down',
                                                    not case['deep_first'], True)
         variables['zgrid'] = coord2
         variables['zgrid_bnds'] = bnds2
         variables['w'] = xr.DataArray(np.array([[100 * p + x for x in range(2)] for p in physical2], dtype='float64'), dims=['kg', 'x'])
         info['zgrid'] = {'dim': 'kg', 'levels': levels + 1, 'positive': coord2.attrs['positive'], 'bounds': 'zgrid_bnds',
-                         'data': [('w', 0)]}
+                         'data': [('w', 0)], 'sign': -1.0 if coord2.attrs['positive'] == 'up' else 1.0, 'offset': 0.0}
     ds = xr.Dataset(variables).set_coords([n for n in info])
     return ds, info
 
 
-def physical_of(value: float) -> int:
-    return int(abs(value) - 0.5)
+def layers_of(ds, meta):
+    """Physical layer stored at each position of the depth dimension, read from the data labels."""
+    var, _ = meta['data'][0]
+    values = np.moveaxis(ds[var].values, list(ds[var].dims).index(meta['dim']), 0)
+    layers = []
+    for k in range(values.shape[0]):
+        found = set(((values[k] // 100) % 10).astype(int).ravel().tolist())
+        layers.append(found.pop() if len(found) == 1 else None)
+    return layers
 
 
 def observe(ds, info):
-    """name -> dict(positive attr, sign, order, physical sequence)."""
+    """name -> dict(positive attr, orientation of the values, order)."""
     out = {}
     for name, meta in info.items():
+        layers = layers_of(ds, meta)
         values = ds[name].values
-        phys = [abs(v) - 0.5 for v in values]
-        out[name] = {
-            'attr': ds[name].attrs.get('positive'),
-            'sign': 'down' if all(v > 0 for v in values) else 'up' if all(v < 0 for v in values) else 'mixed',
-            'deep_first': phys[0] > phys[-1],
-            'physical': phys,
-        }
+        out[name] = {'attr': ds[name].attrs.get('positive'), 'layers': layers, 'values': [float(v) for v in values]}
     return out
 
 
 def check_state(rec, fp, label, ds, info, expected):
-    """expected: name -> (attr, sign, deep_first)."""
+    """expected: name -> (attr, flipped relative to the original values, deep_first)."""
     state = observe(ds, info)
     for name, meta in info.items():
         got = state[name]
-        want_attr, want_sign, want_deep = expected[name]
-        rec.check(got['attr'] == want_attr, f"{fp}/attribute", f"{label}: positive attribute of {name}", want_attr, got['attr'])
-        rec.check(got['sign'] == want_sign, f"{fp}/sign", f"{label}: sign of the values of {name}", want_sign, list(ds[name].values))
-        rec.check(got['deep_first'] == want_deep, f"{fp}/order", f"{label}: ordering of {name}", 'deep first' if want_deep else 'shallow first',
-                  list(ds[name].values))
+        want_attr, flipped, want_deep = expected[name]
         levels = meta['levels']
-        integral = all(abs(p - round(p)) < 1e-12 and 0 <= round(p) < levels for p in got['physical'])
-        if not rec.check(integral and sorted(round(p) for p in got['physical']) == list(range(levels)), f"{fp}/levels",
-                         f"{label}: levels of {name}", list(range(levels)), got['physical']):
+        rec.check(got['attr'] == want_attr, f"{fp}/attribute", f"{label}: positive attribute of {name}", want_attr, got['attr'])
+        layers = got['layers']
+        if not rec.check(None not in layers and sorted(layers) == list(range(levels)), f"{fp}/data-detached",
+                         f"{label}: the data along {meta['dim']} is no longer one physical layer per level", list(range(levels)), layers):
             continue
-        layers = [int(round(p)) for p in got['physical']]
-        sign = 1.0 if got['sign'] == 'down' else -1.0
+        factor = -1.0 if flipped else 1.0
+        want_values = [factor * layer_value(p, meta['sign'], meta['offset']) for p in layers]
+        rec.check(got['values'] == want_values, f"{fp}/sign", f"{label}: values of {name} are not attached to the layers their data belongs to "
+                  f"({'negated' if flipped else 'unchanged'} originals expected)", want_values, got['values'])
+        want_order = list(range(levels))[::-1] if want_deep else list(range(levels))
+        rec.check(layers == want_order, f"{fp}/order", f"{label}: ordering of the layers along {meta['dim']}",
+                  'deep first' if want_deep else 'shallow first', layers)
         if meta['bounds']:
             b = ds[meta['bounds']].values
-            ok = b.shape == (levels, 2) and all(
-                sorted(abs(x) for x in b[k]) == [layers[k], layers[k] + 1] and all(x * sign >= 0 for x in b[k]) for k in range(levels))
-            rec.check(ok, f"{fp}/bounds", f"{label}: bounds of {name} did not move with their levels", 'bracketing, same sign', b)
+            want_b = [[factor * (meta['sign'] * p + meta['offset']), factor * (meta['sign'] * (p + 1) + meta['offset'])] for p in layers]
+            ok = b.shape == (levels, 2) and all(sorted(map(float, b[k])) == sorted(want_b[k]) for k in range(levels))
+            rec.check(ok, f"{fp}/bounds", f"{label}: bounds of {name} did not move with their levels", want_b, b)
         for var, axis in meta['data']:
             values = np.moveaxis(ds[var].values, list(ds[var].dims).index(meta['dim']), 0)
             ok = all(np.all(((values[k] // 100) % 10) == layers[k]) for k in range(levels))
@@ -147,15 +175,23 @@ def check_state(rec, fp, label, ds, info, expected):
               f"{fp}/unrelated-changed", f"{label}: unrelated variable changed", 'unchanged', 'changed')
 
 
-def next_expected(current, positive_down, deep_to_shallow):
+def next_expected(current, positive_down, deep_to_shallow, orientation):
+    """current: name -> (attr, flipped, deep_first); orientation: name -> is the *current* data positive down."""
     out = {}
-    for name, (attr, sign, deep) in current.items():
+    for name, (attr, flipped, deep) in current.items():
         if positive_down is not None:
-            attr = sign = 'down' if positive_down else 'up'
+            attr = 'down' if positive_down else 'up'
+            if orientation[name] != positive_down:
+                flipped = not flipped
         if deep_to_shallow is not None:
             deep = deep_to_shallow
-        out[name] = (attr, sign, deep)
+        out[name] = (attr, flipped, deep)
     return out
+
+
+def orientation_of(info, state):
+    """Is the data of each coordinate currently positive-down (original orientation xor flipped)."""
+    return {name: (info[name]['sign'] > 0) != state[name][1] for name in info}
 
 
 def run_case(case):
@@ -166,8 +202,7 @@ def run_case(case):
     fp = "C13/function"
     ds, info = make_dataset(case)
     names = list(info)
-    initial_state = observe(ds, info)
-    initial = {n: (s['attr'], s['sign'], s['deep_first']) for n, s in initial_state.items()}
+    initial = {n: (ds[n].attrs.get('positive'), False, layers_of(ds, info[n])[0] != 0) for n in info}
     snapshot = ds.copy(deep=True)
 
     def normalise(dataset, p, d):
@@ -182,9 +217,9 @@ def run_case(case):
         except LibraryRaised as err:
             rec.check(False, f"{fp}/raised", label1, 'dataset', str(err))
             continue
-        expected1 = next_expected(initial, p1, d1)
+        expected1 = next_expected(initial, p1, d1, orientation_of(info, initial))
         flips = sum(1 for n in names if expected1[n][1] != initial[n][1]) and sum(1 for n in names if expected1[n][2] != initial[n][2])
-        if flips or case['positive'] is None:
+        if flips or case['positive'] is None or case.get('offset'):
             rec.nontrivial((p1, d1))
         check_state(rec, fp, label1, once, info, expected1)
         rec.check(ds.identical(snapshot), f"{fp}/input-modified", f"{label1}: the input dataset was modified", 'unchanged', 'changed')
@@ -195,10 +230,10 @@ def run_case(case):
             except LibraryRaised as err:
                 rec.check(False, f"{fp}/raised", label2, 'dataset', str(err))
                 continue
-            check_state(rec, fp, label2, twice, info, next_expected(expected1, p2, d2))
+            check_state(rec, fp, label2, twice, info, next_expected(expected1, p2, d2, orientation_of(info, expected1)))
             if (p2, d2) == (p1, d1):
                 rec.check(twice.identical(once), f"{fp}/not-idempotent", f"{label2}: normalising a normalised dataset changed it", 'identical', 'different')
-    rec.outcome([case['positive'], case['deep_first'], case['bounds'], case['separate'], case['levels'], case['second']])
+    rec.outcome([case['positive'], case['deep_first'], case['bounds'], case['separate'], case['levels'], case['second'], case.get('offset', 0.0)])
     return rec.result()
 
 
